@@ -151,6 +151,79 @@ static void do_set(fm_t* m, const vp_field_t* fld, int path, uint64_t v)
 
 static size_t hdr_len(const vp_format_t* f) { return f->spec_bytes; }
 
+/* ================================================================== headers at a 4 GiB address boundary (C01 C02 C04)
+ * Address arithmetic done in 32 bits (a cursor, an alignment mask, a pointer difference) goes wrong only where the
+ * address crosses or touches a multiple of 2^32: the header ends exactly there, straddles it, starts there, or lies in the
+ * first page above it. */
+static uint8_t* boundary_pages(void)
+{
+    static uint8_t* pg; static int tried;
+    if (!tried) {
+        tried = 1;
+        static const uint64_t ks[] = { 0x7100, 0x7210, 0x6f00, 0x7345, 0x1234 };
+        for (unsigned i = 0; i < 5 && !pg; i++) pg = vp_map_at((ks[i] << 32) - 8192, 16384);
+    }
+    return pg;          /* the boundary is at pg + 8192 */
+}
+
+static void boundary_phase(fm_t* m, const char* mode)
+{
+    const vp_format_t* f = m->f; vp_ctx_t* c = m->c;
+    size_t n = hdr_len(f);
+    uint8_t* pg = boundary_pages();
+    if (!pg) { vp_stat(c, "boundary.unavailable", 1); return; }
+    uint8_t* B = pg + 8192;
+    uint8_t* places[6] = { B - n, B - n / 2 - 1, B - 3, B, B + 14, B + 4096 - n };
+    static uint8_t model[16384];
+    for (int pi = 0; pi < 6; pi++) {
+        uint8_t* p = places[pi]; size_t po = (size_t)(p - pg);
+        for (int rep = 0; rep < 2; rep++) {
+            vp_rng_fill(&c->rng, pg, 16384);
+            if (rep) memset(p, 0xff, n);
+            memcpy(model, pg, 16384);
+            if (mode[0] == 'i') {
+                if (!f->image) continue;
+                for (int leg = 0; leg < 2; leg++) {
+                    if (leg ? !f->linit : !f->init) continue;
+                    memcpy(model + po, f->image, n);
+                    if (leg && f->linit_argfield) { const vp_field_t* af = &f->fields[f->linit_argfield - 1]; bf_set(model + po, af->pos, af->width, 1); }
+                    vp_curop("init-at-4GiB-boundary", f->id, leg ? "legacy" : "current", (uint64_t)pi);
+                    vp_call(c);
+                    int rc = 0;
+                    if (leg) rc = f->linit(p, 1); else f->init(p);
+                    c->evals++;
+                    if ((rc != 0 || memcmp(pg, model, 16384) != 0) && vp_viol(c, "init", f->id, leg ? "legacy-init" : "init", "header-at-4GiB-address-boundary", "bytes-differ-from-model", 0)) {
+                        o_s(c, "{\"placement\":"); o_u(c, (uint64_t)pi); o_s(c, ",\"rc\":"); o_u(c, (uint64_t)(int64_t)rc); o_s(c, ",\"expected\":\""); o_hex(c, model + po, n > 24 ? 24 : n); o_s(c, "\",\"actual\":\""); o_hex(c, p, n > 24 ? 24 : n); o_s(c, "\"}"); o_end(c);
+                    }
+                    memcpy(pg, model, 16384);
+                }
+            } else {
+                for (uint32_t fi = 0; fi < f->nfields; fi++) {
+                    const vp_field_t* fld = &f->fields[fi];
+                    for (int path = P_GENERIC; path <= P_DEDICATED; path++) {
+                        if (path == P_DEDICATED && !fld->dget) continue;
+                        vp_curop(mode[0] == 'r' ? "read-at-4GiB-boundary" : "write-at-4GiB-boundary", f->id, fld->name, (uint64_t)pi);
+                        vp_call(c);
+                        c->evals++;
+                        if (mode[0] == 'r') {
+                            uint64_t got = path == P_DEDICATED ? fld->dget(p) : f->gget(p, fld->id), exp = bf_get(model + po, fld->pos, fld->width);
+                            if (got != exp && vp_viol(c, "read", f->id, fld->name, path_names[path], "header-at-4GiB-address-boundary", "value-mismatch")) { o_s(c, "{\"placement\":"); o_u(c, (uint64_t)pi); o_s(c, "}"); o_end(c); }
+                        } else {
+                            uint64_t v = vp_rng_next(&c->rng);
+                            bf_set(model + po, fld->pos, fld->width, v & bf_mask(fld->width));
+                            if (path == P_DEDICATED) fld->dset(p, v); else f->gset(p, fld->id, v);
+                        }
+                        if (memcmp(pg, model, 16384) != 0) {
+                            if (vp_viol(c, mode[0] == 'r' ? "read" : "write", f->id, fld->name, path_names[path], "header-at-4GiB-address-boundary", "bytes-differ-from-model")) { o_s(c, "{\"placement\":"); o_u(c, (uint64_t)pi); o_s(c, "}"); o_end(c); }
+                            memcpy(pg, model, 16384);
+                        }
+                    }
+                }
+            }
+        }
+    }
+}
+
 /* ================================================================== mode: read (C01) */
 static uint64_t read_one(fm_t* m, const vp_field_t* fld, int path, const char* bcname)
 {
@@ -215,6 +288,7 @@ static void read_readonly(fm_t* m)
 static void mode_read(fm_t* m, uint64_t* nontrivial)
 {
     read_readonly(m);
+    boundary_phase(m, "read");
     const vp_format_t* f = m->f;
     size_t n = hdr_len(f);
     uint8_t hdr[MAXHDR];
@@ -312,6 +386,7 @@ static void write_one(fm_t* m, const vp_field_t* fld, int path, uint64_t v, uint
 
 static void mode_write(fm_t* m, uint64_t* nontrivial)
 {
+    boundary_phase(m, "write");
     const vp_format_t* f = m->f;
     size_t n = hdr_len(f);
     uint8_t hdr[MAXHDR];
@@ -1557,7 +1632,7 @@ int main(void)
             if (strcmp(mode, "read") == 0) mode_read(&m, &nontrivial);
             else if (strcmp(mode, "write") == 0) mode_write(&m, &nontrivial);
             else if (strcmp(mode, "extent") == 0) mode_extent(&m, &nontrivial);
-            else if (strcmp(mode, "init") == 0) mode_init(&m, &nontrivial);
+            else if (strcmp(mode, "init") == 0) { mode_init(&m, &nontrivial); boundary_phase(&m, "init"); }
             else if (strcmp(mode, "badargs") == 0) mode_badargs(&m, &nontrivial);
             else if (strcmp(mode, "legacy") == 0) mode_legacy(&m, &m2, &nontrivial);
             else if (strcmp(mode, "direct") == 0) mode_direct(&m, &nontrivial);
